@@ -318,7 +318,12 @@ def pretty_bounded(tier, seed):
             if not (keyline.match(ln) or elemline.match(ln)):
                 bad_g = dict(doc=doc, line=ln)
         for space in (34, 29):
-            out = prettyPrint(text, space)
+            try:
+                out = prettyPrint(text, space)
+            except Exception as e:
+                # the printer itself failing on a document the decoder can produce is a violation, not a checker problem
+                bad_r = dict(doc=doc, error="prettyPrint raised %s: %s" % (type(e).__name__, e))
+                break
             try:
                 if json.loads(out) != doc:
                     bad_r = dict(doc=doc, printed=out[:300])
